@@ -8,16 +8,19 @@ P = 'C01'
 def plan(tier):
     th = tier == 'thorough'
     two = ['-DWIT_TWO_TOGGLES', '-DWIT_TA=0', '-DWIT_TB=1']
+    H = dict(timeout=3400, est_gb=10)
     qs = [
-        Q(P, 1, ['***', '***'], extra=two + ['-DWIT_POS'], wit=(W_OK, W_ERR, 'a bundle of two declared toggles counts both', 'a positional is reported'),
-          more_profile=[[45, 120, 121, 112, 0, 0]]),          # every pair of tokens up to 3 bytes: bundles, =forms, values, --
-        Q(P, 1, ['-????'], extra=two, wit=(W_OK, W_ERR)),   # 4-letter bundles / -x=.. forms
-        Q(P, 1, ['-??', '***'], extra=['-DWIT_OPT=2'], wit=(W_OK, W_ERR, 'an option receives a value'), more_profile=[[112, 61, 118, 0, 0], [120, 112, 118, 0, 0]]),
-        Q(P, 3, ['-**', '***']),                               # option letter o, toggle letter t, greedy/unlimited
-        Q(P, 2, ['-***']),                                     # letter equal to the long name, reversible
-        Q(P, 9, ['-**', '**']),                                # options in a second group
+        Q(P, 1, ['****'], extra=two + ['-DWIT_POS'], wit=(W_OK, W_ERR, 'a bundle of two declared toggles counts both', 'a positional is reported'),
+          more_profile=[[45, 120, 121, 0], [45, 120, 122, 0], [45, 120, 112, 0]]),     # every token up to 4 bytes: bundles of x,y with undeclared / option letters, =forms
+        Q(P, 1, ['-????'], extra=two, wit=(W_OK, W_ERR), more_profile=[[120, 121, 120, 121], [120, 121, 122, 120], [120, 61, 49, 50], [112, 120, 121, 120]]),   # 4-letter bundles / -x=.. forms
+        Q(P, 1, ['-p', '***'], extra=['-DWIT_OPT=2'], wit=(W_OK, W_ERR, 'an option receives a value')),
+        Q(P, 1, ['--m', '***'], wit=(W_OK, W_ERR)),
+        Q(P, 3, ['-***'], wit=(W_ERR,)),                          # option letter o and toggle letter t in one bundle
+        Q(P, 2, ['-***']),                                       # letter equal to the long name, reversible
+        Q(P, 9, ['-***'], wit=(W_OK, W_ERR)),                     # options in a second group
+        Q(P, 4, ['****']), Q(P, 12, ['****']),
     ]
     if th:
-        qs += [Q(P, 1, ['***', '***', '***'], extra=two, timeout=3000, est_gb=8), Q(P, 1, ['-?????'], extra=two), Q(P, 3, ['***', '***', '**'], timeout=3000, est_gb=8),
-               Q(P, 4, ['***', '***']), Q(P, 12, ['***', '***']), Q(P, 10, ['****']), Q(P, 11, ['***', '**']), Q(P, 9, ['***', '***'], timeout=3000)]
+        qs += [Q(P, 3, ['-***', 'v', '--m=*'], wit=(W_OK, W_ERR), **H), Q(P, 1, ['-?????'], extra=two), Q(P, 1, ['***', '***'], extra=two, **H), Q(P, 1, ['-xy', '***'], extra=two, **H), Q(P, 1, ['***', '-xy'], extra=two, **H), Q(P, 3, ['***', '***'], **H),
+               Q(P, 1, ['-??????'], extra=two), Q(P, 10, ['****']), Q(P, 11, ['****']), Q(P, 9, ['***', '**'], **H)]
     return Runner(P, tier, [parser_unit('parser', qs, base_corpus(P, envdecls=[]))], bounds=BOUNDS_NOTE, outside=OUTSIDE, assumptions=ASSUME)
